@@ -95,6 +95,3 @@ func VerifIsEmptyValue(h Handle, v reflect.Value, recursive, container bool) boo
 	}
 	return isEmptyValue(v, ti, recursive)
 }
-
-// VerifSafeMode reports whether the build uses helper_not_unsafe.go.
-func VerifSafeMode() bool { return safeMode }
